@@ -92,6 +92,9 @@ impl Write for Scripted {
 }
 impl Drop for Scripted {
     fn drop(&mut self) {
+        // a writer whose release takes a moment (closing a file, finishing a frame): whoever
+        // claims that the writer has been released must have waited for this
+        std::thread::sleep(Duration::from_millis(2));
         self.0.log.lock().unwrap().push(Call::Drop);
     }
 }
@@ -220,6 +223,7 @@ fn run_case(case: &Case) -> Outcome {
     let mut backlog_at_drop = false;
     let mut gate = true;
     let mut bursts = 0usize;
+    let mut released_at_return = true;
     let mut big = 0usize;
     let mut drop_took = Duration::ZERO;
     let inconclusive = |why: &str| Outcome { verdict: Verdict::Inconclusive(why.to_string()), nontrivial: false, classes: vec![], excluded_known: 0 };
@@ -351,6 +355,7 @@ fn run_case(case: &Case) -> Outcome {
                     let t0 = Instant::now();
                     drop(g);
                     drop_took = t0.elapsed();
+                    released_at_return = sh.log.lock().unwrap().iter().any(|c| *c == Call::Drop);
                 }
             }
         }
@@ -398,6 +403,9 @@ fn run_case(case: &Case) -> Outcome {
     }
     // I7: guard drop: writer released, everything accepted before the drop attempted and flushed
     let dropped_writer = log.iter().filter(|c| **c == Call::Drop).count();
+    if !released_at_return {
+        return fail("underlying writer not yet released when dropping the worker guard returned", format!("guard drop took {:?}", drop_took));
+    }
     if dropped_writer != 1 {
         return fail("underlying writer not released by dropping the worker guard", format!("{dropped_writer} drops of the writer; guard drop took {:?}", drop_took));
     }
